@@ -1,4 +1,5 @@
 import OrsoVerif.Model.Wire
+import OrsoVerif.Drv.C01
 import OrsoVerif.Drv.C02
 import OrsoVerif.Drv.C03
 import OrsoVerif.Drv.C04
@@ -23,6 +24,7 @@ open Wire
 
 def dispatch (prop op : String) (args : List PyVal) : Option (List PyVal) :=
   match prop with
+  | "C01" => Drv.C01.handle op args
   | "C02" => Drv.C02.handle op args
   | "C03" => Drv.C03.handle op args
   | "C04" => Drv.C04.handle op args
